@@ -3,7 +3,7 @@ import json, logging, math, random, sys, threading
 from fractions import Fraction as F
 from http.server import BaseHTTPRequestHandler, HTTPServer
 from common import Driver, REPO
-import layer_m
+import layer_m, det_run
 
 logging.disable(logging.CRITICAL)
 if REPO not in sys.path:
@@ -14,8 +14,11 @@ OP_KEYS = {"id", "state", "is_assignable_state", "parents_complete"}
 
 class Peer:
     """the external scheduler: a naive policy (transcription of go/naive) that may also suspend a suspendable batch container"""
-    def __init__(self, rng, suspend_prob, multi=False):
+    def __init__(self, rng, suspend_prob, multi=False, retry=False, parents=None):
         self.rng, self.suspend_prob, self.multi = rng, suspend_prob, multi
+        self.retry = retry        # also admissible: give a failed operator another try instead of dropping its pipeline
+        self.parents = parents    # for hand-built DAG pipelines: {pipeline_id: [[parent positions] per operator]} -> the peer may pick any admissible operator order
+        self.op_snaps = []        # per call: the real state of every operator delivered so far
         self.calls = []           # (body, reply, snapshot of the real state taken when the request arrived)
         self.executor = None      # set by the harness: same process, used only to pick *admissible* suspensions and to snapshot the truth
 
@@ -27,12 +30,14 @@ class Peer:
             if pool["avail_cpu"] <= 0 or pool["avail_ram_gb"] <= 0:
                 continue
             for p in pipes:
-                if p["is_complete"] or p["has_failures"] or p["pipeline_id"] in used:
+                if p["is_complete"] or (p["has_failures"] and not self.retry) or p["pipeline_id"] in used:
                     continue
                 ready = [o for o in p["operators"] if o["is_assignable_state"] and o["parents_complete"]]
                 if not ready:
                     continue
                 used.add(p["pipeline_id"])
+                if p["has_failures"]:
+                    self.retried = getattr(self, "retried", 0) + 1
                 if self.multi and self.rng.random() < 0.25:
                     # admissible but unusual: one container for the ready operators of two different pipelines
                     other = next((q for q in pipes if q["pipeline_id"] not in used and not q["is_complete"] and not q["has_failures"]
@@ -46,6 +51,8 @@ class Peer:
                         break
                 chosen = [o["id"] for o in p["operators"] if o["is_assignable_state"]] if self.multi and len(ready) == 1 and \
                     all(o["is_assignable_state"] or o["state"] == "completed" for o in p["operators"]) else [ready[0]["id"]]
+                if len(chosen) > 2 and self.parents and p["pipeline_id"] in self.parents:
+                    chosen = self.some_order(p, chosen)
                 asg.append({"operator_ids": chosen, "cpu": pool["avail_cpu"], "ram_gb": pool["avail_ram_gb"], "priority": p["priority"],
                             "pool_id": pool["pool_id"], "is_resume": False, "force_run": False})
                 break
@@ -55,6 +62,24 @@ class Peer:
                     if c.can_suspend_container() and not sus:
                         sus.append({"container_id": c.container_id, "pool_id": pool.pool_id})
         return {"suspensions": sus, "assignments": asg}
+
+    def some_order(self, p, chosen):
+        """another admissible order of the same operators: a random order in which every operator still comes after its parents"""
+        ids = [o["id"] for o in p["operators"]]
+        par = self.parents[p["pipeline_id"]]
+        left, out = [ids.index(x) for x in chosen], []
+        while left:
+            free = [k for k in left if not any(q in left for q in par[k])]
+            k = self.rng.choice(free)
+            left.remove(k)
+            out.append(ids[k])
+        if out != chosen:
+            self.reordered = getattr(self, "reordered", 0) + 1
+        return out
+
+    def op_truth(self):
+        return {str(o.id): [o.state().value, all(q.state().value == "completed" for q in o.parents)]
+                for ps in layer_m.CURRENT.arrivals for p in ps for o in p.values}
 
     def truth(self):
         ex = self.executor
@@ -79,6 +104,7 @@ def serve(peer):
                 snap = peer.truth()
                 reply = peer.decide(body)
                 peer.calls.append((body, reply, snap))
+                peer.op_snaps.append(peer.op_truth())
             data = json.dumps(reply).encode()
             self.send_response(200)
             self.send_header("Content-Type", "application/json")
@@ -139,6 +165,30 @@ def register_replay():
 REPLAY_PLAN = {}
 
 
+def dag_spec(rng, tps, directed=False):
+    """hand-built DAG pipelines (fan-out, diamond, two branches), some of whose operators can never fit a 64 GB pool: their memory grows with what
+    they read, so they run for a few seconds before the OOM killer ends them -- and a peer that retries keeps operators changing state in both directions"""
+    pipes = []
+    if directed:
+        # two equal siblings that can never fit, retried one call apart on two pools: in one and the same tick one of them fails and the other starts again
+        read, k = rng.choice([160, 200]), rng.randint(1, tps)
+        grow = {"parents": [0], "ticks": k, "mem": None, "read": read}
+        return {"pipes": [{"prio": rng.choice([1, 2, 3]), "ops": [{"parents": [], "ticks": 1, "mem": 1, "read": 0}, dict(grow), dict(grow)]}],
+                "arrivals": [[0]], "tps": tps}
+    for _ in range(rng.randint(1, 2)):
+        shape = rng.choice([[[], [0], [0], [0]], [[], [0], [0], [1, 2]], [[], [0], [0], [1], [2]]])
+        ops = []
+        for k, par in enumerate(shape):
+            hopeless = k in (1, 2) and rng.random() < 0.6
+            ops.append({"parents": par, "ticks": rng.randint(1, 2 * tps), "mem": None if hopeless else rng.choice([1, 4, 16]),
+                        "read": rng.choice([160, 200]) if hopeless else 0})
+        pipes.append({"prio": rng.choice([1, 2, 3]), "ops": ops})
+    arrivals = [[] for _ in range(3 * tps)]
+    for k in range(len(pipes)):
+        arrivals[rng.randrange(len(arrivals)) if k else 0].append(k)
+    return {"pipes": pipes, "arrivals": arrivals, "tps": tps}
+
+
 def one_run(ctx, drv, rng):
     global REPLAY_PLAN
     from eudoxia.simulator import run_simulator
@@ -154,12 +204,22 @@ def one_run(ctx, drv, rng):
         # on pool 0 as well as on the others
         multi, sus_prob, poll = True, 0.9, F(1, tps)
     twins = (not heavy) and rng.random() < 0.3
-    peer = Peer(rng, sus_prob, multi)
+    dag = (not heavy) and (not twins) and rng.random() < 0.5
+    directed = dag and rng.random() < 0.4
+    spec = dag_spec(rng, tps, directed) if dag else None
+    if dag:
+        poll = rng.choice([F(1, tps), F(1, tps), F(2, tps)])
+    if directed:
+        multi, poll = False, F(1, tps)
+    peer = Peer(rng, sus_prob, multi, retry=directed or (dag and rng.random() < 0.6),
+                parents={f"d{k}": [o["parents"] for o in p["ops"]] for k, p in enumerate(spec["pipes"])} if dag else None)
     srv = serve(peer)
     params = {"duration": rng.choice([20, 40]), "ticks_per_second": tps, "waiting_seconds_mean": rng.choice([0.5, 2.0, 6.0]),
               "num_pipelines": rng.randint(1, 3), "num_operators": 4 if heavy else rng.choice([2, 4]), "num_pools": rng.choice([1, 2, 3]), "cpus_per_pool": 8,
               "ram_gb_per_pool": rng.choice([64, 128, 256]), "multi_operator_containers": multi, "random_seed": rng.randint(0, 10 ** 6),
               "rest_scheduler_addr": f"127.0.0.1:{srv.server_port}", "rest_poll_interval": float(poll)}
+    if dag:
+        params.update({"ram_gb_per_pool": 64, "num_pools": rng.choice([2, 2, 3]), "duration": rng.choice([20, 30]), "rest_poll_interval": float(poll)})
     if twins:
         # directed: identical (query) pipelines arriving together on several pools finish in the same tick, i.e. between the same two calls
         params.update({"query_prob": 1.0, "interactive_prob": 0.0, "batch_prob": 0.0, "num_pipelines": rng.randint(2, 3), "num_pools": rng.choice([2, 3]),
@@ -172,7 +232,7 @@ def one_run(ctx, drv, rng):
         peer.executor = self
     Executor.__init__ = spy_init
     try:
-        stats, rec = layer_m.run_recorded(params, "rest")
+        stats, rec = layer_m.run_recorded(params, "rest", det_run.fixed_workload(spec) if dag else None)
     except Exception as e:
         return viol(ctx, "raised", f"the run driven over HTTP raised {type(e).__name__}: {e}", {"params": params})
     finally:
@@ -182,7 +242,7 @@ def one_run(ctx, drv, rng):
     ctx.coverage["evaluations"] += 1
     ctx.sit("http_runs")
     ctx.sit("http_calls", len(peer.calls))
-    case = {"params": {k: v for k, v in params.items() if k != "rest_scheduler_addr"}}
+    case = {"params": {k: v for k, v in params.items() if k != "rest_scheduler_addr"}, "workload": spec, "retry": peer.retry}
     n = len(rec.arrivals)
     pid_no = {p.pipeline_id: i for i, p in enumerate(rec.pipelines)}
     # ---- when calls are made, and what the pipeline lists contain: against the Lean model of the bookkeeping
@@ -223,6 +283,14 @@ def one_run(ctx, drv, rng):
             for o in p["operators"]:
                 if set(o.keys()) != OP_KEYS:
                     return viol(ctx, "payload-hides-needs", f"operator record has fields {sorted(o.keys())}; only {sorted(OP_KEYS)} may be sent", case)
+                true = peer.op_snaps[i].get(o["id"])
+                if true is None or [o["state"], o["parents_complete"]] != true or o["is_assignable_state"] != (o["state"] in ("pending", "failed")):
+                    return viol(ctx, "payload-state", f"call {i} (tick {t}): operator {o['id']} of {p['pipeline_id']} is sent as {o}; its real state is {true}", case)
+        # ---- decisions are executed exactly as given: same containers, same operators in the same order
+        given = [(a["operator_ids"], a["cpu"], a["ram_gb"], a["pool_id"], a["priority"]) for a in reply["assignments"]]
+        done = [([str(o.id) for o in a.ops], a.cpu, a.ram, a.pool_id, a.priority.name) for a in rec.exec[t]["asg"]] if t < n else given
+        if given != done:
+            return viol(ctx, "transparency", f"call {i} (tick {t}): the peer asked for {given}; the executor was handed {done}", case)
     # ---- transparency: the same decisions made by an in-process scheduler give the same statistics
     REPLAY_PLAN = {}
     op_ref = {}
@@ -238,7 +306,7 @@ def one_run(ctx, drv, rng):
     p2 = {k: v for k, v in params.items() if not k.startswith("rest_")}
     p2["scheduler_algo"] = "verif_replay"
     try:
-        stats2 = run_simulator(p2)
+        stats2 = run_simulator(p2, workload=det_run.fixed_workload(spec)) if dag else run_simulator(p2)
     except Exception as e:
         return viol(ctx, "transparency", f"replaying the peer's decisions in process raised {type(e).__name__}: {e}", case)
     if not stats_equal(stats, stats2):
@@ -251,6 +319,9 @@ def one_run(ctx, drv, rng):
     if nexec != nsus:
         return viol(ctx, "transparency", f"the peer issued {nsus} suspensions, the executor received {nexec}", case)
     ctx.sit("containers_mixing_two_pipelines", getattr(peer, "mixed", 0))
+    ctx.sit("dag_workload_runs", int(dag))
+    ctx.sit("failed_operators_retried", getattr(peer, "retried", 0))
+    ctx.sit("containers_given_in_a_non_pipeline_order", getattr(peer, "reordered", 0))
     ctx.sit("assignments_issued_by_peer", sum(len(r["assignments"]) for _, r, _ in peer.calls))
     ctx.sit("pipelines_reported_complete", sum(1 for c in got for _, f in c["other"] if f))
     ctx.sit("calls_reporting_several_completions", sum(1 for c in got if sum(1 for _, f in c["other"] if f) >= 2))
